@@ -373,8 +373,9 @@ func genC16() {
 				}
 			case *ast.BinaryExpr:
 				if x.Op == token.NEQ {
-					if id, ok := x.X.(*ast.Ident); ok && id.Name == "perm" {
-						if v, ok := intLit(x.Y); ok {
+					// `perm != 0o755` / `perm != 0o644` (whatever the local is called); the uid/gid tests compare with 0
+					if _, ok := x.X.(*ast.Ident); ok {
+						if v, ok := intLit(x.Y); ok && v != 0 {
 							defaults = append(defaults, v)
 						}
 					}
@@ -403,6 +404,21 @@ func genC16() {
 		g.def("installed_dir_default_mode", "Z", fmt.Sprintf("%d%%Z", defaults[0]), "directories: M: line written unless perm is this and uid = gid = 0")
 		g.def("installed_file_default_mode", "Z", fmt.Sprintf("%d%%Z", defaults[1]), "files: a: line written unless perm is this and uid = gid = 0")
 		g.def("installed_join_and_trailer", "list string", coqStrList(trailerLit), "line separator and record trailer of AddInstalledPackage")
+	}
+
+	// ---- 3b. C15: the guard in front of groupByOriginAndSize -----------------
+	if fd := findFunc("pkg/build/layers.go", "Context", "buildLayers"); fd != nil {
+		var conds []string
+		ast.Inspect(fd, func(n ast.Node) bool {
+			if is, ok := n.(*ast.IfStmt); ok {
+				t := exprText(is.Cond)
+				if strings.Contains(strings.ToLower(t), "budget") {
+					conds = append(conds, t)
+				}
+			}
+			return true
+		})
+		g.def("layer_budget_guards", "list string", coqStrList(conds), "if-conditions of buildLayers (pkg/build/layers.go) that mention the budget")
 	}
 
 	// ---- 4. passwd / group ------------------------------------------------
